@@ -238,7 +238,13 @@ fn run(inp: &Input, rk: ReaderKind) -> Res {
 fn fam_inputs(ctx: &CaseCtx, cov: &mut Cov) -> CaseOut {
     let mut out = CaseOut::default();
     let mut rng = ctx.rng();
-    let inp = gen(&mut rng, ctx.tier);
+    let mut inp = gen(&mut rng, ctx.tier);
+    // a quarter of the .lzma inputs are decoded with incomplete input allowed: whatever that
+    // option means for the one-shot decoder, it must mean the same under every reader
+    if inp.dec == 0 && rng.chance(1, 4) {
+        inp.options.allow_incomplete = true;
+        cov.name("lzma_inputs_with_incomplete_input_allowed", 1);
+    }
     let base = run(&inp, ReaderKind::Slice);
     out.evals += 1;
     cov.inc("decoder", inp.dec as u32);
